@@ -735,7 +735,8 @@ def add_credential_changes(rng, kind, user, steps, always=False):
 # dedicated sessions for corner behaviours (judged like every other session: model AND specification)
 QUIRKS = ["ce-name-or-value-case", "reply-ce-value-case", "reply-mislabelled", "error-reply-sets-cookie",
           "error-reply-compressed", "colon-in-username", "plain-transport-with-credentials",
-          "caller-authorization-and-credentials", "credential-change-same-url", "credential-change-deeper-path", "credentials-reset"]
+          "caller-authorization-and-credentials", "credential-change-same-url", "credential-change-deeper-path", "credentials-reset",
+          "resend-after-credentials-reset"]
 
 
 def gen_quirk(rng, cat, clients_n):
@@ -820,6 +821,26 @@ def gen_quirk(rng, cat, clients_n):
             st = gen_step(rng, None, False, rng.random() < 0.8, False, status=200)
             st["path"] = path if rng.random() < 0.7 else rng.choice(PATHS)
             st["hdrs"] = [(k, v) for k, v in st["hdrs"] if k.lower() != "authorization"]
+            if cr is not None:
+                st["creds"] = cr + ("transport",)
+            s["steps"].append(st)
+    elif cat == "resend-after-credentials-reset":
+        # the preemptive transport wrote Authorization into the caller's headers dict on the first send;
+        # the credentials are then reset to None and the SAME Request object (or the same dict) is sent again
+        user, pw = gen_text(rng, colon=False), gen_text(rng)
+        style = rng.choice(["request", "dict"])
+        s = {"kind": "TBasicPre", "user": user, "pw": pw, "steps": []}
+        plan = [None, rng.choice([(None, None), (None, pw), (user, None)])]
+        if rng.random() < 0.5:
+            plan.append((gen_text(rng, colon=False), gen_text(rng)))
+        for i, cr in enumerate(plan):
+            st = gen_step(rng, None, False, False, False, status=200)
+            st["reuse"] = style
+            st["hdrs"] = [(k, v) for k, v in st["hdrs"] if k.lower() != "authorization"]
+            if i > 0:
+                st["hdrs"] = s["steps"][0]["hdrs"]
+                if style == "request":
+                    st["path"], st["msg"] = s["steps"][0]["path"], s["steps"][0]["msg"]
             if cr is not None:
                 st["creds"] = cr + ("transport",)
             s["steps"].append(st)
@@ -1033,7 +1054,11 @@ def finding_keys(sess, obs, failed):
         _, key, what = PART_KEYS[part]
         if part == 3:
             auth = [v for ob in obs for k, v in ob["headers"] if k.lower() == b"authorization"]
-            if sess.get("cat") in ("credential-change-deeper-path", "credentials-reset"):
+            if sess.get("cat") == "resend-after-credentials-reset":
+                key, what = "C15:authorization-persists-in-resent-request", (
+                    "the preemptive transport wrote Authorization into the caller's headers dict; after the credentials "
+                    "were reset to None the same Request object (or dict) sent again still carries the old credentials")
+            elif sess.get("cat") in ("credential-change-deeper-path", "credentials-reset"):
                 key, what = "C15:stale-credentials-for-deeper-path", (
                     "credentials were used and then changed or reset to None: a later request (Basic challenge for a "
                     "deeper path, or any request after the reset) still carries the old username/password")
@@ -1238,7 +1263,7 @@ def run(ck):
     xdis = [i for i in resx["x_agrees"] if i not in spec_bad]
     # sessions showing a known finding must still be the model's behaviour
     xdis += [i for i in resx["x_agrees"] if i in spec_bad and sessions[i]["cat"] in
-             ("error-reply-sets-cookie", "colon-in-username")]
+             ("error-reply-sets-cookie", "colon-in-username", "resend-after-credentials-reset")]
     if xdis:
         disagree["sessions"] = [dict(session_payload(sessions[i]), category=sessions[i]["cat"],
                                      observed=[describe_obs(o) for o in xobs[i]])
